@@ -1,23 +1,27 @@
 /-
 C04 — document validation accepts conforming documents, rejects each violation.
 Property theorems only. Model and specification: KinModel/DocValidate.lean; helper lemmas:
-KinModel/Lemmas/C04Local*.lean; regenerated table: KinModel/Gen/Descent.lean.
+KinModel/Lemmas/C04Local*.lean, C04Reach.lean; regenerated tables: KinModel/Gen/Descent.lean, ParamStyles.lean.
 
-Full-strength statements (what the property says), kept here as the goal shape:
+Full-strength statements (what the property says):
 
-  conforming_accepted :  conformingB o d = true → validate codeTable o d = true
+  conforming_accepted :  conformingB o d = true → validate codeTable o d = true              (PROVED below, no exclusion)
   violation_rejected  :  Reach specAct d n → rulesOK o n = false → validate codeTable o d = false
-  edges_cover         :  ∀ e ∈ specEdges, the table has an unconditional edge for e
+  edges_cover         :  ∀ e ∈ specEdges, the table has an unconditional, error-propagating edge for e
 
-They do not hold of the code as it is: four exclusion classes (each with a kernel-checked witness below,
-each replayed against the real code from corpus/C04/):
+The last two do not hold of the code as it is: five exclusion classes (each with a kernel-checked witness
+below, each replayed against the real code from corpus/C04/):
   * excl7Node          (DESIGN §7 #7)   template variable names compared only when the counts differ;
-  * exclHeaderNode / exclBelow knownUncovered (§7 #28) extra fields in header / xml / discriminator /
-                        encoding objects are never looked at;
+  * exclBelow [(schema, xml), (schema, discriminator)]  (§7 #28, what is left of it) `xml` and `discriminator`
+                        objects are never validated;
   * exclInnerNode      sibling keys of a `$ref` inside a schema are never looked at;
-  * exclExternalNode   an example that gives only `externalValue` is validated as the value `null`
-                        (a conforming document is rejected);
-  * exclHeaderExampleNode  the example / examples of a header object are never checked against its schema.
+  * exclBelow [(pathItem, servers), (operation, servers)]  the `servers` of a path item / an operation are never validated;
+  * exclEncNode / exclBelow [(encoding, headers)]  `Encoding.Validate` answers nil as soon as one of its headers
+                        fails: the header's violation is dropped and the encoding object's own violations
+                        are masked.
+Repaired since the last round (classes deleted, witnesses turned into regression theorems):
+  header extra fields / encoding objects never validated (78418b3), external-only examples validated as null
+  (9d56ffd), header examples never checked (3a27745).
 -/
 import KinModel.Lemmas.C04Reach
 import KinModel.Lemmas.C04Witness
@@ -29,47 +33,89 @@ namespace KinModel.DocValidate
 /-- all closed facts about the regenerated table and the witness documents, decided by the kernel in one
 evaluation of the table (the named theorems below are its components) -/
 theorem code_facts :
+    -- 1
     (Gen.descentUnrecognised = [] ∧ (Gen.descent.all (fun r => (interp r).isSome)) = true) ∧
+    -- 2
     TableOK codeTable = true ∧
+    -- 3
     uncovered codeTable = knownUncovered ∧
+    -- 4
     (validate codeTable {} W.d7 = true ∧ specVerdict {} W.d7 = .reject ∧ anyNode excl7Node W.d7 = true) ∧
-    (validate codeTable {} W.d28a = true ∧ specVerdict {} W.d28a = .reject ∧ anyNode (exclHeaderNode {}) W.d28a = true) ∧
+    -- 5
     (validate codeTable {} W.d28b = true ∧ specVerdict {} W.d28b = .reject ∧
       anyNode (exclBelow knownUncovered {}) W.d28b = true) ∧
+    -- 6
     (validate codeTable {} W.dInner = true ∧ specVerdict {} W.dInner = .reject ∧
       anyNode (exclInnerNode {}) W.dInner = true) ∧
-    (validate codeTable {} W.dExternal = false ∧ specVerdict {} W.dExternal = .accept ∧
-      anyNode (exclExternalNode {}) W.dExternal = true ∧
-      validate codeTable { exDisabled := true } W.dExternal = true) ∧
-    (conformingB {} W.good = true ∧ anyNode (exclNode knownUncovered {}) W.good = false ∧
+    -- 7
+    (validate codeTable {} W.dEncHeader = true ∧ specVerdict {} W.dEncHeader = .reject ∧
+      anyNode (exclEncNode codeTable {}) W.dEncHeader = true ∧ anyNode (exclBelow knownUncovered {}) W.dEncHeader = true ∧
+      validate codeTable {} W.dEncMasked = true ∧ specVerdict {} W.dEncMasked = .reject ∧
+      anyNode (exclEncNode codeTable {}) W.dEncMasked = true) ∧
+    -- 7b
+    (validate codeTable {} W.dOpServer = true ∧ specVerdict {} W.dOpServer = .reject ∧
+      anyNode (exclBelow knownUncovered {}) W.dOpServer = true ∧
+      validate codeTable {} W.dPathItemServer = true ∧ specVerdict {} W.dPathItemServer = .reject ∧
+      anyNode (exclBelow knownUncovered {}) W.dPathItemServer = true) := by
+  decide +kernel
+
+/-- the closed facts about the former witnesses (repaired defects) and the non-vacuity documents -/
+theorem code_facts_regress :
+    -- 8
+    (validate codeTable {} W.dExternal = true ∧ specVerdict {} W.dExternal = .accept ∧
+      validate codeTable { exDisabled := true } W.dExternal = true ∧
+      validate codeTable {} W.dExternalBad = false ∧ specVerdict {} W.dExternalBad = .reject ∧
+      validate codeTable { exDisabled := true } W.dExternalBad = true) ∧
+    -- 9
+    (validate codeTable {} W.d28a = false ∧ specVerdict {} W.d28a = .reject ∧
+      anyNode (exclNode codeTable knownUncovered {}) W.d28a = false) ∧
+    -- 10
+    (validate codeTable {} W.dHeaderExample = false ∧ specVerdict {} W.dHeaderExample = .reject ∧
+      anyNode (exclNode codeTable knownUncovered {}) W.dHeaderExample = false ∧
+      validate codeTable { exDisabled := true } W.dHeaderExample = true ∧
+      specVerdict { exDisabled := true } W.dHeaderExample = .accept ∧
+      validate codeTable {} W.dHeaderExampleOK = true ∧ specVerdict {} W.dHeaderExampleOK = .accept) ∧
+    -- 11
+    (validate codeTable {} W.dEncStyle = false ∧ specVerdict {} W.dEncStyle = .reject ∧
+      anyNode (exclNode codeTable knownUncovered {}) W.dEncStyle = false ∧
+      validate codeTable {} W.dEncExtra = false ∧ specVerdict {} W.dEncExtra = .reject ∧
+      anyNode (exclNode codeTable knownUncovered {}) W.dEncExtra = false ∧
+      validate codeTable {} W.dEncOK = true ∧ specVerdict {} W.dEncOK = .accept) ∧
+    -- 12
+    (validate codeTable {} W.dHeaderBoth = false ∧ specVerdict {} W.dHeaderBoth = .reject ∧
+      validate codeTable { exDisabled := true } W.dHeaderBoth = false ∧
+      specVerdict { exDisabled := true } W.dHeaderBoth = .reject) ∧
+    -- 13
+    (conformingB {} W.good = true ∧ anyNode (exclNode codeTable knownUncovered {}) W.good = false ∧
       validate codeTable {} W.good = true) ∧
-    (specVerdict {} W.dDeepDefault = .reject ∧ anyNode (exclNode knownUncovered {}) W.dDeepDefault = false ∧
+    -- 14
+    (specVerdict {} W.dDeepDefault = .reject ∧ anyNode (exclNode codeTable knownUncovered {}) W.dDeepDefault = false ∧
       validate codeTable {} W.dDeepDefault = false ∧
       validate codeTable { defDisabled := true } W.dDeepDefault = true ∧
       validate codeTable { exDisabled := true } W.dDeepDefault = false ∧
       validate codeTable { patDisabled := true, fmtEnabled := true, extProhibited := true } W.dDeepDefault = false) ∧
+    -- 15
     (validate codeTable {} W.dMissing = false ∧ specVerdict {} W.dMissing = .reject ∧
       validate codeTable {} W.d28aOK = true ∧ specVerdict {} W.d28aOK = .accept) ∧
-    (validate codeTable {} W.dHeaderExample = true ∧ specVerdict {} W.dHeaderExample = .reject ∧
-      anyNode (exclHeaderExampleNode {}) W.dHeaderExample = true ∧
-      specVerdict { exDisabled := true } W.dHeaderExample = .accept ∧
-      validate codeTable {} W.dHeaderExampleOK = true ∧ specVerdict {} W.dHeaderExampleOK = .accept) ∧
+    -- 16
     (validate codeTable {} W.dSecondOp = false ∧ specVerdict {} W.dSecondOp = .reject ∧
-      anyNode (exclNode knownUncovered {}) W.dSecondOp = false) := by
+      anyNode (exclNode codeTable knownUncovered {}) W.dSecondOp = false) := by
   decide +kernel
 
-/-- every `Validate` method, every child call and every option guard of the code was read and is
-interpreted by the model (no `unrecognised` row) -/
+/-- every `Validate` method, every child call, every option guard and the fate of every returned error was
+read and is interpreted by the model (no `unrecognised` row) -/
 theorem table_recognised :
     Gen.descentUnrecognised = [] ∧ (Gen.descent.all (fun r => (interp r).isSome)) = true := code_facts.1
 
-/-- the calls to `validateExtensions`, `ValidateIdentifier`, `VisitJSON(default)`, `validateExampleValue`
-are where the theorems need them, under exactly the option guards they name -/
+/-- the calls to `validateExtensions`, `ValidateIdentifier`, `VisitJSON(default)`, `validateExampleValue` and
+the visits of example objects are where the theorems need them, under exactly the option guards they name;
+the only errors a method drops are those of the headers of an encoding object -/
 theorem table_ok : TableOK codeTable = true := code_facts.2.1
 
 /-- `edges_cover` (partial): of the containment edges named by the property, the code lacks exactly
-`mediaType → encoding`, `schema → xml`, `schema → discriminator`; every other one is followed
-unconditionally -/
+`pathItem → servers`, `operation → servers`, `schema → xml`, `schema → discriminator` (never called) and
+`encoding → headers` (called, error dropped);
+every other one is followed unconditionally and its error returned -/
 theorem edges_cover_partial : uncovered codeTable = knownUncovered := code_facts.2.2.1
 
 /-- the finite domain over which the style tables are compared: every `in` and style name of the OpenAPI
@@ -106,54 +152,74 @@ theorem header_style_table_is_oas_table :
     Gen.headerStyles.all (fun x => x.1 == "simple") = true := by
   decide +kernel
 
+/-- the (style, explode) case list of `Encoding.Validate` and the defaults of `Encoding.SerializationMethod`,
+regenerated from the source, are what the model and the rule `badStyle` of the specification use for an
+encoding object (`encodingStyleOK`): the styles of a query parameter, default `form` with explode -/
+theorem encoding_style_table_is_oas_table :
+    Gen.encodingStyleDefault = encSmOf {} ∧
+    (["form", "simple", "label", "matrix", "spaceDelimited", "pipeDelimited", "deepObject", "weird"].all fun s =>
+      [true, false].all fun e =>
+        Gen.encodingStyles.contains (s, e) ==
+          encodingStyleOK { strs := [("style", s), ("explode", if e then "true" else "false")] }) = true ∧
+    Gen.encodingStyles.all (fun x => smSupported "query" x.1 x.2) = true := by
+  decide +kernel
+
 /-! ### The descent -/
 
 /-- the model of `Validate` accepts exactly when every node reached through the code's own edges (under
-the given options) passes the code's local checks -/
+the given options) passes the code's local checks (`localOKV`: fed with the verdicts of the node's kids,
+which only the check of an encoding object looks at) -/
 theorem validate_iff (T : Table) (o : Opts) (d : Doc) :
-    validate T o d = true ↔ ∀ n, Reach (active T o) d n → localOK T o n = true :=
+    validate T o d = true ↔ ∀ n, Reach (active T o) d n → localOKV T o n = true :=
   descend_iff _ _ d
 
 /-! ### Local checks = rules -/
 
 /-- at every node outside the exclusion classes, the code's local checks (transcribed in the code's
 order, with their `validateExtensions` / example / default calls read off the table) hold exactly when
-no rule that is in force under the options is violated -/
+no rule that is in force under the options is violated. `examplesWFor`: the example objects the code
+visits under the node are well-formed — not an exclusion, it holds at every node of an accepted document
+(`examplesWFor_of_valid`) and of a conforming one (`examplesWFor_of_rules`). -/
 theorem local_checks_eq_rules_partial (T : Table) (o : Opts) (d : Doc) (hT : TableOK T = true)
-    (hex : exclLocal o d = false) : localOK T o d = rulesOK o d :=
-  localOK_eq_rules T o d hT hex
+    (hex : exclLocal T o d = false) (hwf : examplesWFor o d = true) : localOKV T o d = rulesOK o d :=
+  localOKV_eq_rules T o d hT hex hwf
+
+/-- the code's local checks are never stricter than the rules: a node whose example objects are
+well-formed and that violates no rule in force passes, whatever the verdicts of its kids -/
+theorem local_checks_not_stricter (T : Table) (o : Opts) (d : Doc) (vs : List Bool) (hT : TableOK T = true)
+    (hwf : examplesWFor o d = true) (h : rulesOK o d = true) : localOK T o d vs = true :=
+  localOK_of_rulesOK T o d vs hT hwf h
 
 /-! ### Conforming documents are accepted -/
 
-/-- **C04 (a), partial.** A document all of whose nodes satisfy every rule in force is accepted —
-provided no parameter / media type carries an example without a value (class `exclExternalNode`). -/
-theorem conforming_accepted_partial (T : Table) (o : Opts) (d : Doc) (hT : TableOK T = true)
-    (hex : ∀ n, Reach allAct d n → exclExternalNode o n = false)
+/-- **C04 (a), full strength.** A document all of whose nodes satisfy every rule in force is accepted,
+under every option set. (Until 9d56ffd this needed the exclusion of external-only examples.) -/
+theorem conforming_accepted (T : Table) (o : Opts) (d : Doc) (hT : TableOK T = true)
     (h : conformingB o d = true) : validate T o d = true := by
+  have hall := (descend_plain_iff _ _ d).mp h
   unfold validate
   rw [descend_iff]
   intro n hr
   have hr' : Reach allAct d n := hr.mono (fun _ _ _ _ => rfl)
-  exact localOK_of_rulesOK T o n hT (hex n hr') ((descend_iff _ _ d).mp h n hr')
+  exact localOK_of_rulesOK T o n _ hT
+    (examplesWFor_of_rules o n (fun m hm => hall m (hr'.trans hm))) (hall n hr')
 
 /-! ### Each violation at a reachable place is rejected -/
 
 /-- **C04 (b), partial.** If some node reachable through the property's containment relation violates a
 rule that is in force, the document is rejected — provided no node reachable that way is in an exclusion
-class (`exclNode`: #7, #28, inner `$ref` siblings, external-only examples). Holds for every document,
-every location and every option set. -/
+class (`exclNode`: #7, servers of path items / operations, xml / discriminator objects, inner `$ref` siblings,
+encoding objects with a failing header). Holds for every document, every location and every option set. -/
 theorem violation_rejected_partial (T : Table) (o : Opts) (d n : Doc) (hT : TableOK T = true)
     (hr : Reach specAct d n) (hbad : rulesOK o n = false)
-    (hex : ∀ m, Reach specAct d m → exclNode (uncovered T) o m = false) : validate T o d = false := by
+    (hex : ∀ m, Reach specAct d m → exclNode T (uncovered T) o m = false) : validate T o d = false := by
   cases hv : validate T o d with
   | false => rfl
   | true => rw [reach_rules T o hT hr hex hv] at hbad; cases hbad
 
-/-- the executable oracle used by the differential run, on the code's table: verdict `accept` -/
-theorem specVerdict_accept_partial (o : Opts) (d : Doc)
-    (hex : ∀ n, Reach allAct d n → exclExternalNode o n = false)
-    (h : specVerdict o d = .accept) : validate codeTable o d = true := by
-  apply conforming_accepted_partial codeTable o d table_ok hex
+/-- the executable oracle used by the differential run, on the code's table: verdict `accept` (full strength) -/
+theorem specVerdict_accept (o : Opts) (d : Doc) (h : specVerdict o d = .accept) : validate codeTable o d = true := by
+  apply conforming_accepted codeTable o d code_facts.2.1
   unfold specVerdict at h
   cases hc : conformingB o d with
   | true => rfl
@@ -161,7 +227,7 @@ theorem specVerdict_accept_partial (o : Opts) (d : Doc)
 
 /-- the executable oracle used by the differential run, on the code's table: verdict `reject` -/
 theorem specVerdict_reject_partial (o : Opts) (d : Doc)
-    (hex : ∀ m, Reach specAct d m → exclNode knownUncovered o m = false)
+    (hex : ∀ m, Reach specAct d m → exclNode codeTable knownUncovered o m = false)
     (h : specVerdict o d = .reject) : validate codeTable o d = false := by
   have hclean : specCleanB o d = false := by
     unfold specVerdict at h
@@ -176,18 +242,18 @@ theorem specVerdict_reject_partial (o : Opts) (d : Doc)
   | true =>
     have : specCleanB o d = true := by
       unfold specCleanB
-      rw [descend_iff]
+      rw [descend_plain_iff]
       intro n hr
-      exact reach_rules codeTable o table_ok hr (by rw [edges_cover_partial]; exact hex) hv
+      exact reach_rules codeTable o code_facts.2.1 hr (by rw [code_facts.2.2.1]; exact hex) hv
     rw [this] at hclean; cases hclean
 
 /-- `conformingB` is the executable twin of "every node satisfies every rule in force" -/
 theorem conformingB_iff (o : Opts) (d : Doc) :
-    conformingB o d = true ↔ ∀ n, Reach allAct d n → rulesOK o n = true := descend_iff _ _ d
+    conformingB o d = true ↔ ∀ n, Reach allAct d n → rulesOK o n = true := descend_plain_iff _ _ d
 
 /-- `specCleanB` is the executable twin of "no violation at a place the property reaches" -/
 theorem specCleanB_iff (o : Opts) (d : Doc) :
-    specCleanB o d = true ↔ ∀ n, Reach specAct d n → rulesOK o n = true := descend_iff _ _ d
+    specCleanB o d = true ↔ ∀ n, Reach specAct d n → rulesOK o n = true := descend_plain_iff _ _ d
 
 /-! ### Each option switches off only the check it names -/
 
@@ -234,22 +300,45 @@ theorem rulesOK_examples_off (o : Opts) (d : Doc) :
   · simp [h, enabled]
   · rw [option_examples_only o true v h]; simp [h]
 
+/-- **C04, characterisation.** For every option set, the model of `Validate` accepts a document exactly
+when no violation that is in force sits at a node the code reaches — provided no node the code reaches is
+in one of the three local exclusion classes. With the `option_*_only` theorems above (an option changes the
+status of its own rule only) this is "each validation option switches off only the check it names" for all
+six options at once. -/
+theorem accepted_iff_no_violation_in_force (T : Table) (o : Opts) (d : Doc) (hT : TableOK T = true)
+    (hex : ∀ n, Reach (active T o) d n → exclLocal T o n = false) :
+    validate T o d = true ↔ ∀ n, Reach (active T o) d n → ∀ v ∈ violations n, enabled o v = false := by
+  have hr : ∀ n, rulesOK o n = true ↔ ∀ v ∈ violations n, enabled o v = false := by
+    intro n; unfold rulesOK; rw [List.all_eq_true]; simp
+  constructor
+  · intro hv n hn
+    have hall := (validate_iff T o d).mp hv
+    have hwf := examplesWFor_of_valid T o hT n (fun m hm => hall m (hn.trans hm))
+    rw [← hr, ← localOKV_eq_rules T o n hT (hex n hn) hwf]
+    exact hall n hn
+  · intro h
+    rw [validate_iff]
+    intro n hn
+    have hwf := examplesWFor_of_reached_rules T o hT n (fun m hm => (hr m).mpr (h m (hn.trans hm)))
+    exact localOK_of_rulesOK T o n _ hT hwf ((hr n).mpr (h n hn))
+
 /-- **C04 (c), partial.** `option_only_its_check` for `DisableExamplesValidation`: with the option set,
 the document is accepted exactly when every violation at a node the code reaches is either not in force
 under the other options or is the example rule. -/
 theorem option_only_its_check_partial (T : Table) (o : Opts) (d : Doc) (hT : TableOK T = true)
-    (hex : ∀ n, exclLocal { o with exDisabled := true } n = false) :
+    (hex : ∀ n, exclLocal T { o with exDisabled := true } n = false) :
     validate T { o with exDisabled := true } d = true ↔
       ∀ n, Reach (active T { o with exDisabled := true }) d n →
         ∀ v ∈ violations n, v.rule = "exampleMismatch" ∨ enabled o v = false := by
+  have hwf : ∀ n, examplesWFor { o with exDisabled := true } n = true := fun n => by simp [examplesWFor]
   rw [validate_iff]
   constructor
   · intro h n hr v hv
     have := h n hr
-    rw [localOK_eq_rules T _ n hT (hex n), rulesOK_examples_off, List.all_eq_true] at this
+    rw [localOKV_eq_rules T _ n hT (hex n) (hwf n), rulesOK_examples_off, List.all_eq_true] at this
     simpa using this v hv
   · intro h n hr
-    rw [localOK_eq_rules T _ n hT (hex n), rulesOK_examples_off, List.all_eq_true]
+    rw [localOKV_eq_rules T _ n hT (hex n) (hwf n), rulesOK_examples_off, List.all_eq_true]
     intro v hv
     simpa using h n hr v hv
 
@@ -260,60 +349,101 @@ theorem witness_template_names :
     validate codeTable {} W.d7 = true ∧ specVerdict {} W.d7 = .reject ∧ anyNode excl7Node W.d7 = true :=
   code_facts.2.2.2.1
 
-/-- #28 (a): a header object with `"bogus": 1` is accepted, the property rejects it -/
-theorem witness_header_extra :
-    validate codeTable {} W.d28a = true ∧ specVerdict {} W.d28a = .reject ∧
-      anyNode (exclHeaderNode {}) W.d28a = true := code_facts.2.2.2.2.1
-
-/-- #28 (b): an `xml` object with `"bogus": 1` is accepted (no edge), the property rejects it -/
+/-- #28, what is left: an `xml` object with `"bogus": 1` is accepted (no edge), the property rejects it -/
 theorem witness_xml_extra :
     validate codeTable {} W.d28b = true ∧ specVerdict {} W.d28b = .reject ∧
-      anyNode (exclBelow knownUncovered {}) W.d28b = true := code_facts.2.2.2.2.2.1
+      anyNode (exclBelow knownUncovered {}) W.d28b = true := code_facts.2.2.2.2.1
 
 /-- `$ref` with sibling `"bogus": 1` inside `properties` is accepted, the property rejects it -/
 theorem witness_inner_ref_sibling :
     validate codeTable {} W.dInner = true ∧ specVerdict {} W.dInner = .reject ∧
-      anyNode (exclInnerNode {}) W.dInner = true := code_facts.2.2.2.2.2.2.1
+      anyNode (exclInnerNode {}) W.dInner = true := code_facts.2.2.2.2.2.1
 
-/-- a conforming document (example with `externalValue` only) is rejected; with examples validation
-switched off it is accepted -/
-theorem witness_external_example :
-    validate codeTable {} W.dExternal = false ∧ specVerdict {} W.dExternal = .accept ∧
-      anyNode (exclExternalNode {}) W.dExternal = true ∧
-      validate codeTable { exDisabled := true } W.dExternal = true := code_facts.2.2.2.2.2.2.2.1
+/-- a header of an encoding object that carries `name` is accepted (`Encoding.Validate` drops the error),
+the property rejects it; the failing header also masks an unsupported style and an extra field of the
+encoding object itself -/
+theorem witness_encoding_header_error_dropped :
+    validate codeTable {} W.dEncHeader = true ∧ specVerdict {} W.dEncHeader = .reject ∧
+      anyNode (exclEncNode codeTable {}) W.dEncHeader = true ∧ anyNode (exclBelow knownUncovered {}) W.dEncHeader = true ∧
+      validate codeTable {} W.dEncMasked = true ∧ specVerdict {} W.dEncMasked = .reject ∧
+      anyNode (exclEncNode codeTable {}) W.dEncMasked = true := code_facts.2.2.2.2.2.2.1
 
-/-- a header whose example violates its schema is accepted, the property rejects it (and accepts it once
-examples validation is switched off); the matching example is accepted by both -/
-theorem witness_header_example :
-    validate codeTable {} W.dHeaderExample = true ∧ specVerdict {} W.dHeaderExample = .reject ∧
-      anyNode (exclHeaderExampleNode {}) W.dHeaderExample = true ∧
+/-- a server object without `url` under an operation, and one with an undeclared variable under a path item,
+are accepted (`Operation.Validate` / `PathItem.Validate` never look at `servers`); the property rejects them -/
+theorem witness_nested_servers_unchecked :
+    validate codeTable {} W.dOpServer = true ∧ specVerdict {} W.dOpServer = .reject ∧
+      anyNode (exclBelow knownUncovered {}) W.dOpServer = true ∧
+      validate codeTable {} W.dPathItemServer = true ∧ specVerdict {} W.dPathItemServer = .reject ∧
+      anyNode (exclBelow knownUncovered {}) W.dPathItemServer = true := code_facts.2.2.2.2.2.2.2
+
+/-! ### Regression theorems: former witnesses of repaired defects (model = specification on them; the inputs
+stay in corpus/C04, so a regression of the code is reported with that input) -/
+
+/-- 9d56ffd: an example that gives only `externalValue` under a string schema is accepted; an example next to
+it whose value violates the schema is still rejected (and accepted once examples validation is switched off) -/
+theorem regression_external_example :
+    validate codeTable {} W.dExternal = true ∧ specVerdict {} W.dExternal = .accept ∧
+      validate codeTable { exDisabled := true } W.dExternal = true ∧
+      validate codeTable {} W.dExternalBad = false ∧ specVerdict {} W.dExternalBad = .reject ∧
+      validate codeTable { exDisabled := true } W.dExternalBad = true := code_facts_regress.1
+
+/-- 78418b3: a header object with `"bogus": 1` is rejected -/
+theorem regression_header_extra :
+    validate codeTable {} W.d28a = false ∧ specVerdict {} W.d28a = .reject ∧
+      anyNode (exclNode codeTable knownUncovered {}) W.d28a = false := code_facts_regress.2.1
+
+/-- 3a27745: a header whose example violates its schema is rejected, accepted once examples validation is
+switched off; the matching example is accepted -/
+theorem regression_header_example :
+    validate codeTable {} W.dHeaderExample = false ∧ specVerdict {} W.dHeaderExample = .reject ∧
+      anyNode (exclNode codeTable knownUncovered {}) W.dHeaderExample = false ∧
+      validate codeTable { exDisabled := true } W.dHeaderExample = true ∧
       specVerdict { exDisabled := true } W.dHeaderExample = .accept ∧
       validate codeTable {} W.dHeaderExampleOK = true ∧ specVerdict {} W.dHeaderExampleOK = .accept :=
-  code_facts.2.2.2.2.2.2.2.2.2.2.2.1
+  code_facts_regress.2.2.1
+
+/-- 78418b3: an encoding object with an unsupported style, or with an extra field, is rejected; a supported
+style with an extension field is accepted -/
+theorem regression_encoding_validated :
+    validate codeTable {} W.dEncStyle = false ∧ specVerdict {} W.dEncStyle = .reject ∧
+      anyNode (exclNode codeTable knownUncovered {}) W.dEncStyle = false ∧
+      validate codeTable {} W.dEncExtra = false ∧ specVerdict {} W.dEncExtra = .reject ∧
+      anyNode (exclNode codeTable knownUncovered {}) W.dEncExtra = false ∧
+      validate codeTable {} W.dEncOK = true ∧ specVerdict {} W.dEncOK = .accept :=
+  code_facts_regress.2.2.2.1
+
+/-- 3a27745: `example` next to `examples` in a header object is rejected, whatever the examples option -/
+theorem regression_header_example_and_examples :
+    validate codeTable {} W.dHeaderBoth = false ∧ specVerdict {} W.dHeaderBoth = .reject ∧
+      validate codeTable { exDisabled := true } W.dHeaderBoth = false ∧
+      specVerdict { exDisabled := true } W.dHeaderBoth = .reject :=
+  code_facts_regress.2.2.2.2.1
 
 /-! ### Non-vacuity -/
 
 /-- a conforming document outside every exclusion class: accepted, by model and specification -/
-example : conformingB {} W.good = true ∧ anyNode (exclNode knownUncovered {}) W.good = false ∧
-    validate codeTable {} W.good = true := code_facts.2.2.2.2.2.2.2.2.1
+example : conformingB {} W.good = true ∧ anyNode (exclNode codeTable knownUncovered {}) W.good = false ∧
+    validate codeTable {} W.good = true := code_facts_regress.2.2.2.2.2.1
 
 /-- a violation outside the exclusion classes, three containers deep (a default that violates its schema,
 under `items` of a schema without `type`): rejected under the default options, accepted once the option
 that names its rule is set, still rejected under the other options -/
-example : specVerdict {} W.dDeepDefault = .reject ∧ anyNode (exclNode knownUncovered {}) W.dDeepDefault = false ∧
+example : specVerdict {} W.dDeepDefault = .reject ∧ anyNode (exclNode codeTable knownUncovered {}) W.dDeepDefault = false ∧
     validate codeTable {} W.dDeepDefault = false ∧
     validate codeTable { defDisabled := true } W.dDeepDefault = true ∧
     validate codeTable { exDisabled := true } W.dDeepDefault = false ∧
     validate codeTable { patDisabled := true, fmtEnabled := true, extProhibited := true } W.dDeepDefault = false :=
-  code_facts.2.2.2.2.2.2.2.2.2.1
+  code_facts_regress.2.2.2.2.2.2.1
 
-/-- the template rule does fire when the counts differ, and the benign twin of #28 passes -/
+/-- the template rule does fire when the counts differ, and the benign twin of the header extra field passes -/
 example : validate codeTable {} W.dMissing = false ∧ specVerdict {} W.dMissing = .reject ∧
-    validate codeTable {} W.d28aOK = true ∧ specVerdict {} W.d28aOK = .accept := code_facts.2.2.2.2.2.2.2.2.2.2.1
+    validate codeTable {} W.d28aOK = true ∧ specVerdict {} W.d28aOK = .accept :=
+  code_facts_regress.2.2.2.2.2.2.2.1
 
 /-- the template rule is applied to every operation of a path item separately: `get` declares the
 variable, `put` does not — rejected, outside every exclusion class -/
 example : validate codeTable {} W.dSecondOp = false ∧ specVerdict {} W.dSecondOp = .reject ∧
-    anyNode (exclNode knownUncovered {}) W.dSecondOp = false := code_facts.2.2.2.2.2.2.2.2.2.2.2.2
+    anyNode (exclNode codeTable knownUncovered {}) W.dSecondOp = false :=
+  code_facts_regress.2.2.2.2.2.2.2.2
 
 end KinModel.DocValidate
